@@ -354,7 +354,7 @@ pub fn run(ctx: &Ctx) {
         case(&mut t2, rec, len, seed ^ idx)
     });
     let n = ctx.tier.pick(3000u64, 40000);
-    ctx.group("random-config", Source::Random { n, tape_len: 160 }, |t, rec| {
+    ctx.group("random-config", Source::Random { n, tape_len: 400 }, |t, rec| {
         let len = match t.below(5) {
             0 => t.range(0, 200),
             1 => {
